@@ -478,7 +478,13 @@ pub fn run(args: &Args) -> ! {
             vec!["-j2", "--pre", "cat", "needle"],
             vec!["-j1", "--sort", "path", "-z", "needle"],
             vec!["-j1", "--sort", "path", "--no-mmap", "-E", "latin1", "needle"],
+            // output that does not come from a match (the run would end with
+            // status 1 if nobody closed the pipe): judged for the k that leave
+            // more unread output than a pipe can hold
+            vec!["-j1", "--sort", "path", "--passthru", "zzz"],
+            vec!["-j2", "--passthru", "zzz"],
         ];
+        let first_nomatch_variant = variants.len() - 2;
         let _ = Command::new("gzip").arg("-k").arg(d.join("f1.txt")).status();
         let _ = Command::new("sh").arg("-c").arg("gzip -c big.txt > big2.txt.gz").current_dir(&d).status();
         let mut cases = vec![];
@@ -496,6 +502,12 @@ pub fn run(args: &Args) -> ! {
                 k += tier.pick(16384, 4096);
             }
             ks.push(len.saturating_sub(1));
+            if vi >= first_nomatch_variant {
+                if len < 90_000 {
+                    machinery_error("C15: the no-match pipe variants need more output than a pipe holds");
+                }
+                ks.retain(|&k| k + 80_000 < len);
+            }
             for k in ks {
                 cases.push((vi, k));
             }
@@ -563,7 +575,7 @@ pub fn run(args: &Args) -> ! {
     ev.set("faults_by_kind", json!(total.by_kind));
     ev.set(
         "rule",
-        "real rg binary on 3 trees (mixed / all files match / none matches) x 6 modes (standard, -c, -l, -q, --files, --json) x -j1 and -j2 (the latter under the replay scheduler's default schedule so that 'the k-th call' is well defined): the run is repeated under `strace -e inject=<syscall>:error=<E>:when=k` for EVERY k up to the number of such calls in the fault-free run, for openat->EACCES, openat->ENOENT, read->EIO, getdents64->EACCES, write->EPIPE; the injected call's path is recovered from the strace log (faults on start-up files are skipped). Decision table: a fault on a tree path => a diagnostic naming it on stderr, exit status 2 (0 allowed for -q with a match), the other files' results identical to the fault-free run; EPIPE on stdout => status 0, empty stderr, no further file opened (promptly). Plus: 61 invalid argument sets (regex, pattern file, engine, globs for -g / --iglob / --pre-glob with and without a preprocessor, types, encoding, numbers, sizes, sort / colour / hyperlink choices, unknown flags, under --files / -c / -l / --json) => status 2, a diagnostic and empty stdout; real faults as uid 65534 (mode-000 file and directory, dangling symlinks, a symlink loop under -L, a preprocessor failing silently, missing paths, -q, -q --stats, -q --json and --no-messages variants); the stdout consumer closing after k bytes for every k up to 120 (400) and around every buffer boundary, in 11 variants (-j1/-j2, --line-buffered, --files, -c, --json, --pre cat at -j1 and -j2, -z with gzip files, transcoding) => status 0 and no diagnostic.",
+        "real rg binary on 3 trees (mixed / all files match / none matches) x 6 modes (standard, -c, -l, -q, --files, --json) x -j1 and -j2 (the latter under the replay scheduler's default schedule so that 'the k-th call' is well defined): the run is repeated under `strace -e inject=<syscall>:error=<E>:when=k` for EVERY k up to the number of such calls in the fault-free run, for openat->EACCES, openat->ENOENT, read->EIO, getdents64->EACCES, write->EPIPE; the injected call's path is recovered from the strace log (faults on start-up files are skipped). Decision table: a fault on a tree path => a diagnostic naming it on stderr, exit status 2 (0 allowed for -q with a match), the other files' results identical to the fault-free run; EPIPE on stdout => status 0, empty stderr, no further file opened (promptly). Plus: 61 invalid argument sets (regex, pattern file, engine, globs for -g / --iglob / --pre-glob with and without a preprocessor, types, encoding, numbers, sizes, sort / colour / hyperlink choices, unknown flags, under --files / -c / -l / --json) => status 2, a diagnostic and empty stdout; real faults as uid 65534 (mode-000 file and directory, dangling symlinks, a symlink loop under -L, a preprocessor failing silently, missing paths, -q, -q --stats, -q --json and --no-messages variants); the stdout consumer closing after k bytes for every k up to 120 (400) and around every buffer boundary, in 13 variants (-j1/-j2, --line-buffered, --files, -c, --json, --pre cat at -j1 and -j2, -z with gzip files, transcoding, --passthru with a pattern that matches nothing at -j1 and -j2) => status 0 and no diagnostic.",
     );
     ev.set("samples", json!([{"tree": "mixed", "mode": "standard", "fault": "openat:error=EACCES:when=17 (d/c.txt)"}, {"pipe": "rg -j1 --line-buffered needle, consumer closes after 37 bytes"}]));
     ev.assume("strace's fault injector; setpriv to drop root so that mode 000 is effective");
